@@ -13,6 +13,7 @@ Definition optl (m : option nat) : list nat := match m with Some j => [j] | None
 Definition names_h (h : hop) : list nat :=
   match h with
   | HOp o | HFail o _ => names o
+  | HRaise _ => []
   | HSeq os => flat_map names os
   | HScaleDown i _ meta then_ => i :: optl meta ++ flat_map names then_
   end.
@@ -20,6 +21,7 @@ Definition names_h (h : hop) : list nat :=
 Definition may_change_h (h : hop) : list nat :=
   match h with
   | HOp o | HFail o _ => may_change o
+  | HRaise _ => []
   | HSeq os => flat_map may_change os
   | HScaleDown i _ meta then_ => i :: optl meta ++ flat_map may_change then_
   end.
@@ -27,6 +29,7 @@ Definition may_change_h (h : hop) : list nat :=
 Definition writes_h (h : hop) : list nat :=
   match h with
   | HOp o | HFail o _ => writes o
+  | HRaise _ => []
   | HSeq os => flat_map writes os
   | HScaleDown i _ _ then_ => i :: flat_map writes then_
   end.
@@ -40,21 +43,23 @@ Proof. intros H Hx. apply in_flat_map in Hx. destruct Hx as [o [Ho Hx]]. apply i
 
 Lemma may_change_h_names h x : In x (may_change_h h) -> In x (names_h h).
 Proof.
-  destruct h as [o|os|i k meta then_|o e]; cbn [may_change_h names_h].
+  destruct h as [o|os|i k meta then_|o e|e]; cbn [may_change_h names_h].
   - apply may_change_names.
   - apply In_flat_map_incl. exact may_change_names.
   - cbn [In]. rewrite !in_app_iff. intros [H|[H|H]]; auto. right. right.
     eapply In_flat_map_incl; [exact may_change_names|exact H].
   - apply may_change_names.
+  - intros [].
 Qed.
 Lemma writes_h_may_change h x : In x (writes_h h) -> In x (may_change_h h).
 Proof.
-  destruct h as [o|os|i k meta then_|o e]; cbn [may_change_h writes_h].
+  destruct h as [o|os|i k meta then_|o e|e]; cbn [may_change_h writes_h].
   - apply writes_may_change.
   - apply In_flat_map_incl. exact writes_may_change.
   - cbn [In]. rewrite !in_app_iff. intros [H|H]; auto. right. right.
     eapply In_flat_map_incl; [exact writes_may_change|exact H].
   - apply writes_may_change.
+  - intros [].
 Qed.
 
 (* ---------------------------------------------------------------- frame relation: monotonicity *)
@@ -120,7 +125,7 @@ Qed.
 Lemma hstep_fr st h :
   fr st (fst (hstep st h)) (fun j => memn j (may_change_h h)) (fun j => memn j (writes_h h)).
 Proof.
-  destruct h as [o|os|i k meta then_|o e]; cbn [hstep may_change_h writes_h].
+  destruct h as [o|os|i k meta then_|o e|e]; cbn [hstep may_change_h writes_h].
   - apply step_fr.
   - apply hseq_fr.
   - pose proof (store_scale_down_fr st i k meta) as F1.
@@ -141,6 +146,7 @@ Proof.
         rewrite memn_app in H. apply orb_false_iff in H. tauto. }
     destruct x; try (eapply fr_trans; [exact F1'|apply F2]); exact F1'.
   - pose proof (step_fr st o) as F1. destruct (step st o) as [st1 x]. exact F1.
+  - apply fr_refl.
 Qed.
 
 (* ---------------------------------------------------------------- exported theorems *)
@@ -263,11 +269,11 @@ Example C16_scale_down_fail_nonvacuous :
 Proof. vm_compute. repeat split; try reflexivity; discriminate. Qed.
 
 Definition exh_hops : list hop :=
-  [exh_hop; HSeq [OScale 0 2; ONormalise 0]; HFail (OReadRel 1) ValueErr; HScaleDown 0 5 (Some 1%nat) [ONew];
+  [exh_hop; HSeq [OScale 0 2; ONormalise 0]; HFail (OReadRel 1) ValueErr; HRaise ValueErr; HScaleDown 0 5 (Some 1%nat) [ONew];
    HOp (OCopy 1); HScaleDown 3 2 None []].
 Example C16_run_h_nonvacuous :
   leaves_h 2 exh_hops = true /\ no_write_h 1 exh_hops = true /\ leaves_h 1 exh_hops = false /\
   length (fst (run_h exh_store exh_hops)) = 4%nat /\
   map (fun x => match x with OErr e => Some e | _ => None end) (snd (run_h exh_store exh_hops)) =
-    [None; None; Some ValueErr; Some OutOfModel; None; None].
+    [None; None; Some ValueErr; Some ValueErr; Some OutOfModel; None; None].
 Proof. vm_compute. repeat split; reflexivity. Qed.
